@@ -9,6 +9,12 @@
 //           generated priority when first seen, the highest-priority runnable thread runs, and at
 //           1..3 generated change points (decision indices) the running thread drops to the lowest
 //           priority - long uninterrupted runs with a few precisely placed preemptions
+//   mode 3  sparse (mode byte >= 192): a salt byte, a gap-scale byte, then (gap, choice) pairs: the
+//           running thread continues for gap*scale decisions, is then preempted in favour of the
+//           chosen alternative, and so on - a few hundred bytes place preemptions anywhere in a
+//           scenario of thousands of scheduling points (weighted mode spends one byte per point and
+//           therefore only ever perturbs the beginning).  Forced choices (running thread blocked)
+//           and weak-CAS failures are a fixed function of the salt and the decision index.
 // An exhausted stream gives the default alternative (continue the running thread; the scheduler's
 // fairness quantum keeps spin loops progressing).
 #pragma once
@@ -42,17 +48,28 @@ class ByteSource : public vsched::ChoiceSource
 public:
   explicit ByteSource(vh::Reader &rd, unsigned switch_weight = 48) : rd_(rd), sw_(switch_weight)
   {
-    mode_ = rd_.u8() % 3;
+    uint8_t mb = rd_.u8();
+    mode_      = mb >= 192 ? 3 : mb % 3;
     last_trace().clear();
     if (mode_ == 2)
     {
       unsigned d = 1 + rd_.below(3);
+      static const uint32_t range[] = {120, 700, 4000};
       for (unsigned i = 0; i < d; ++i)
-        change_points_.push_back(rd_.below(rd_.coin() ? 120 : 700));
+        change_points_.push_back(rd_.below(range[rd_.weighted({4, 4, 3})]));
+    }
+    if (mode_ == 3)
+    {
+      salt_      = rd_.u8();
+      gap_scale_ = 1 + rd_.u8() % 16;
+      skip_      = static_cast<unsigned>(rd_.u8()) * gap_scale_;
     }
   }
   int mode() const { return mode_; }
-  const char *mode_name() const { return mode_ == 0 ? "weighted" : mode_ == 1 ? "explicit" : "pct"; }
+  const char *mode_name() const
+  {
+    return mode_ == 0 ? "weighted" : mode_ == 1 ? "explicit" : mode_ == 2 ? "pct" : "sparse";
+  }
   int choose(int n, bool cur_runnable, bool prefer_switch, const int *ids) override
   {
     int k = 0;
@@ -78,6 +95,23 @@ public:
         if (prio_[static_cast<size_t>(ids[i])] > prio_[static_cast<size_t>(ids[best])])
           best = i;
       k = best;
+      ++decisions_;
+    }
+    else if (mode_ == 3)
+    {
+      if (!cur_runnable)
+        k = static_cast<int>(mix(decisions_) % static_cast<unsigned>(n));
+      else if (prefer_switch)
+        k = 1 + static_cast<int>(mix(decisions_) % static_cast<unsigned>(n - 1));  // a yield lets another thread go
+      else if (skip_ > 0)
+        --skip_;
+      else if (!rd_.exhausted())
+      {
+        uint8_t g = rd_.u8();
+        uint8_t c = rd_.u8();
+        k         = 1 + static_cast<int>(c % static_cast<unsigned>(n - 1));
+        skip_     = static_cast<unsigned>(g) * gap_scale_;
+      }
       ++decisions_;
     }
     else if (!rd_.exhausted())
@@ -109,7 +143,9 @@ public:
   bool spurious() override
   {
     bool f = false;
-    if (mode_ != 2 && !rd_.exhausted())
+    if (mode_ == 3)
+      f = (salt_ & 1) && mix(0x5000u + spur_n_++) % 24 == 0;
+    else if (mode_ != 2 && !rd_.exhausted())
     {
       uint8_t c = rd_.u8();
       f         = mode_ == 1 ? c != 0 : c >= 232;
@@ -124,9 +160,20 @@ public:
   static constexpr int kUnassigned  = -2147483647;
 
 private:
+  // a fixed mixing function of the case's salt byte and an index (no state, no RNG)
+  unsigned mix(unsigned i) const
+  {
+    uint32_t x = (static_cast<uint32_t>(salt_) + 1u) * 0x9E3779B1u ^ (i * 0x85EBCA6Bu);
+    x ^= x >> 15;
+    x *= 0x2C1B3C6Du;
+    x ^= x >> 12;
+    return x >> 4;
+  }
   vh::Reader &rd_;
   unsigned sw_;
   int mode_;
+  uint8_t salt_       = 0;
+  unsigned gap_scale_ = 1, skip_ = 0, spur_n_ = 0;
   std::vector<int> prio_;
   std::vector<unsigned> change_points_;
   unsigned decisions_ = 0;
